@@ -252,6 +252,16 @@ ScalarCases(dts) ==
         /\ ~(x[2] = "bool" /\ x[3][3] = 0)
         /\ (x[1] \in {"divide", "pow"} => x[3][1] # 9)
         /\ (x[1] = "pow" => x[3][2] = 1 /\ x[2] # "bool")}}
+\* Several arguments AND an explicit axis= (array-API) / dim= (xarray) keyword in the same call.  The library's contract as
+\* HEAD behaves: with two or more arguments the reduction is ACROSS THE ARGUMENTS whatever the keyword says (both backends
+\* overwrite it with the stacking axis / dimension), so the value is the one of the call without keyword; the marked
+\* functions stay batchable under the same calls ("batchedk": the keyword is passed to the inner and the outer calls).
+KeywordCases(top) ==
+       UNION {IF ax < Len(sh) THEN {C("multik", f, t, ax, <<>>, <<>>) : <<f, t>> \in Reds \X Tuples(Small(sh), n)} ELSE {}
+              : sh \in Shapes, n \in 2..top, ax \in 0..1}
+  \cup UNION {IF ax < Len(sh) THEN {C("batchedk", f, t, ax, <<>>, parts) : <<f, t, parts>> \in
+                                     {"sum", "prod", "min", "max"} \X Tuples(Small(sh), 3) \X {<<1, 2>>, <<2, 1>>}} ELSE {}
+              : sh \in {<<2>>, <<2, 2>>}, ax \in 0..1}
 NarrowCases(top) ==          \* (a parameter so that TLC does not evaluate it when it starts)
        {CD("multi", f, t, 0, <<>>, <<>>, "bool") : <<f, t>> \in UNION {NarrowOps \X Tuples(BoolPool(sh), n) : <<sh, n>> \in BoolShapes \X (2..top)}}
   \cup {CD("multi", f, t, 0, <<>>, <<>>, "i1") : <<f, t>> \in UNION {NarrowOps \X Tuples(I1Pool(sh), n) : <<sh, n>> \in I1Shapes \X (2..top)}}
@@ -292,6 +302,7 @@ Cases(maxArgs) ==
   \cup MixedRankCases(3)
   \cup OddIndexCases(Shapes)
   \cup ScalarCases(SDtypes)
+  \cup KeywordCases(3)
 
 \* TLC evaluates every constant definition of a module when it starts, so each pass is guarded by IOEnv.PASS
 Generate == IOEnv.PASS = "generate" => (LET cs == SetToSeq(Cases(MaxArgs)) IN JsonSerialize(IOEnv.CASES_FILE, [i \in 1..Len(cs) |-> cs[i]]))
@@ -332,6 +343,8 @@ Spec(c) == LET a == ArgsOf(c)
     [] c.k = "bin" -> IF c.dt = "i1" THEN WrapArr8(Binary(c.op, a[1], a[2])) ELSE Binary(c.op, a[1], a[2])
     [] c.k = "batched" -> Apply(c.op, a, c.axis)
     [] c.k = "sbin" -> ScalarSpec(c, a)
+    [] c.k = "multik" -> MultiN(c.op, a)              \* the keyword does not change what several arguments mean
+    [] c.k = "batchedk" -> MultiN(c.op, a)
     [] c.k = "bstack" -> Stack(BArgs(a), NormAxis(c.axis, Len(BShapeOf(a)) + 1))
     [] c.k = "bmulti" -> MultiN(c.op, BArgs(a))
     [] c.k = "bbin" -> Binary(c.op, BArgs(a)[1], BArgs(a)[2])
@@ -350,7 +363,7 @@ ImplArr(r) == [shape |-> AsSeq(r.shape), data |-> [i \in DOMAIN r.data |-> Q(r.d
 PostOne(c, res, be, marked) ==
   LET n(what) == {be \o ":" \o c.op \o ":" \o c.k \o (IF c.dt = "f8" THEN "" ELSE "[" \o c.dt \o "]") \o ":" \o what}
       want == Spec(c)
-  IN IF c.k = "batched" /\ c.op \notin marked THEN {}          \* nothing is promised for unmarked functions
+  IN IF c.k \in {"batched", "batchedk"} /\ c.op \notin marked THEN {}          \* nothing is promised for unmarked functions
      ELSE IF c.k = "bmulti" /\ be = "np" THEN {}                 \* not defined by the array-API backend (ragged np.asarray)
      ELSE IF "skip" \in DOMAIN res THEN {}                      \* the backend's API has no such call (axis given by name)
      ELSE IF HasUndef(want) THEN n("outside_model_range")      \* cannot happen on this domain; never skip silently
